@@ -33,7 +33,7 @@ RULE = (
     'schema.')
 ASSUMPTIONS = ['commands are applied one statement at a time through '
                'edb.testbase.lang.run_ddl (delta_from_ddl + apply), as the server does']
-MIN_EVALS = {'quick': 100, 'thorough': 3000}
+MIN_EVALS = {'quick': 100, 'thorough': 1500}
 
 
 def preload():
@@ -292,7 +292,7 @@ def _run(rec, case):
 
 def shard(rec, idx, nshards, seed, tier):
     SE.setup()
-    n = 9 if tier == 'quick' else 300
+    n = 9 if tier == 'quick' else 150
     core.run_given(_strategy(), lambda c: _run(rec, c), seed=seed * 1000 + idx,
                    max_examples=n)
 
